@@ -39,17 +39,17 @@ Proof.
 Qed.
 
 (* ---------- the two refutations of "sscanf returns 0 or -1 on every string" ---------- *)
-Lemma sscanf_empty_oob dirty : parse_hwloc_gen false dirty [0] = Oob.
+Lemma sscanf_empty_oob dirty : parse_hwloc_gen false false dirty [0] = Oob.
 Proof. reflexivity. Qed.
 (* the read that leaves the block: strchr(current + 1, ',') with current = string = "" *)
 Lemma sscanf_empty_oob_where : strchr [0] 1 COMMA = Oob /\ rd [0] 1 = None.
 Proof. split; reflexivity. Qed.
-Lemma sscanf_leading_comma_assert dirty : parse_hwloc_gen false dirty (cstr ",1") = Ok PAssert.
+Lemma sscanf_leading_comma_assert dirty : parse_hwloc_gen false false dirty (cstr ",1") = Ok PAssert.
 Proof. vm_compute. reflexivity. Qed.
 (* after the fix both are handled *)
-Lemma sscanf_fixed_empty dirty : parse_hwloc_gen true dirty [0] = Ok (PSet (BM [dirty] false)).
+Lemma sscanf_fixed_empty dirty : parse_hwloc_gen true false dirty [0] = Ok (PSet (BM [dirty] false)).
 Proof. vm_compute. reflexivity. Qed.
-Lemma sscanf_fixed_leading_comma dirty : parse_hwloc_gen true dirty (cstr ",1") = Ok (PSet (BM [1] false)).
+Lemma sscanf_fixed_leading_comma dirty : parse_hwloc_gen true false dirty (cstr ",1") = Ok (PSet (BM [1] false)).
 Proof. vm_compute. reflexivity. Qed.
 
 (* ---------- parsers never leave the string: list format ---------- *)
@@ -139,6 +139,15 @@ Proof.
   intros Hi. unfold store_opt. destruct (N.ltb_spec i (N.of_nat (length ul))); [|lia].
   eexists. split; [reflexivity|].
   rewrite app_length, firstn_length. cbn [length]. rewrite skipn_length. lia.
+Qed.
+
+Lemma or_store_ok ul i v : i < N.of_nat (length ul) ->
+  exists ul', or_store ul i v = Ok ul' /\ length ul' = length ul.
+Proof.
+  intros Hi. unfold or_store.
+  destruct (nth_error ul (N.to_nat i)) eqn:E.
+  - now apply store_opt_ok.
+  - apply nth_error_None in E. lia.
 Qed.
 
 Lemma taskset_loop_total s n infinite : cstring s n ->
@@ -291,16 +300,23 @@ Proof.
     rewrite (commas_end s n Hs). f_equal. lia.
 Qed.
 
-Lemma hwloc_loop_total s n count0 : cstring s n ->
+Lemma hwloc_loop_total zeroed s n count0 : cstring s n ->
   forall fuel cur count accum ul, cur <= n -> (N.to_nat (n - cur) < fuel)%nat ->
   count <= count0 -> N.of_nat (length ul) = (count0 + 1) / 2 ->
   1 + commas_from s cur <= count ->
-  exists e, hwloc_sscanf_loop fuel s cur count accum ul = Ok e /\ e <> LAssert.
+  exists e, hwloc_sscanf_loop zeroed fuel s cur count accum ul = Ok e /\ e <> LAssert.
 Proof.
   intros Hs. induction fuel as [|fuel IH]; intros cur count accum ul Hcur Hfuel Hc0 Hul Hcnt; [lia|].
   cbn [hwloc_sscanf_loop].
   destruct (cstring_rd s n cur Hs Hcur) as [c [Hc Zc]]. unfold rdr at 1. rewrite Hc. cbn [bind].
-  destruct (N.eqb_spec c 0) as [->|Hcz]; [eexists; split; [reflexivity|discriminate]|].
+  destruct (N.eqb_spec c 0) as [->|Hcz].
+  { destruct (zeroed && negb (accum =? 0) && (0 <? count)) eqn:Ez; [|eexists; split; [reflexivity|discriminate]].
+    apply andb_true_iff in Ez. destruct Ez as [_ Ez]. apply N.ltb_lt in Ez.
+    destruct (or_store_ok ul (N.pred count / 2) accum) as [ul' [-> _]].
+    - rewrite Hul. apply N.div_lt_upper_bound; [discriminate|].
+      pose proof (N.div_mod (count0 + 1) 2 ltac:(discriminate)).
+      pose proof (N.mod_upper_bound (count0 + 1) 2 ltac:(discriminate)). lia.
+    - cbn [bind]. eexists; split; [reflexivity|discriminate]. }
   destruct (strtoul_ok s n cur 16 Hs Hcur) as [v [e [-> [He Hv]]]]. cbn [bind].
   destruct (N.eqb_spec count 0) as [E|_]; [lia|].
   set (count' := N.pred count).
@@ -335,9 +351,9 @@ Qed.
    and does not start with a comma *)
 Definition hwloc_sscanf_safe (s : list N) : Prop := exists b, rd s 0 = Some b /\ b <> 0 /\ b <> COMMA.
 
-Lemma parse_hwloc_gen_total fixed dirty s n : cstring s n ->
+Lemma parse_hwloc_gen_total fixed zeroed dirty s n : cstring s n ->
   (fixed = false -> hwloc_sscanf_safe s) ->
-  exists r, parse_hwloc_gen fixed dirty s = Ok r /\ r <> PAssert.
+  exists r, parse_hwloc_gen fixed zeroed dirty s = Ok r /\ r <> PAssert.
 Proof.
   intros Hs Hsafe. unfold parse_hwloc_gen.
   pose proof (cstring_len s n Hs) as Hlen. unfold len in Hlen.
@@ -372,11 +388,82 @@ Proof.
   destruct Hd as [hd [-> Hhd]]. cbn [bind].
   destruct hd as [[[cur infinite] count]|]; [|eexists; split; [reflexivity|discriminate]].
   destruct Hhd as [Hcur Hcnt].
-  destruct (hwloc_loop_total s n count Hs (S (length s)) cur count
+  destruct (hwloc_loop_total zeroed s n count Hs (S (length s)) cur count
               (if infinite && negb (count mod 2 =? 0) then HI32MASK else 0)
-              (repeat None (N.to_nat ((count + 1) / 2)))) as [e [-> Hne]]; try lia.
+              (repeat (if zeroed then Some 0 else None) (N.to_nat ((count + 1) / 2)))) as [e [-> Hne]]; try lia.
   - rewrite repeat_length. lia.
   - cbn [bind]. destruct e; try (eexists; split; [reflexivity|discriminate]). congruence.
+Qed.
+
+(* ---------- is the accepted value a function of the string? ---------- *)
+(* code at eea9042: a trailing comma leaves ulongs[0] as it was *)
+Lemma sscanf_trailing_comma_stale dirty :
+  parse_hwloc_gen true false dirty (cstr "0x1,") = Ok (PSet (BM [dirty] false)).
+Proof. vm_compute. reflexivity. Qed.
+
+Definition all_some (ul : list (option N)) : Prop := Forall (fun o => o <> None) ul.
+Lemma store_opt_all_some ul i v ul' : all_some ul -> store_opt ul i v = Ok ul' -> all_some ul'.
+Proof.
+  unfold store_opt, all_some. intros H E. destruct (i <? N.of_nat (length ul)); [|discriminate].
+  injection E as <-. apply Forall_app. split.
+  - rewrite <- (firstn_skipn (N.to_nat i) ul) in H. apply Forall_app in H. tauto.
+  - constructor; [discriminate|].
+    rewrite <- (firstn_skipn (S (N.to_nat i)) ul) in H. apply Forall_app in H. tauto.
+Qed.
+Lemma or_store_all_some ul i v ul' : all_some ul -> or_store ul i v = Ok ul' -> all_some ul'.
+Proof.
+  unfold or_store. intros H E. destruct (nth_error ul (N.to_nat i)); [|discriminate].
+  eapply store_opt_all_some; eauto.
+Qed.
+
+Lemma hwloc_loop_all_some zeroed s : forall fuel cur count accum ul ul',
+  all_some ul -> hwloc_sscanf_loop zeroed fuel s cur count accum ul = Ok (LDone ul') -> all_some ul'.
+Proof.
+  induction fuel as [|fuel IH]; intros cur count accum ul ul' Hul E; [discriminate|].
+  cbn [hwloc_sscanf_loop] in E.
+  destruct (rdr s cur) as [c|]; [|discriminate]. cbn [bind] in E.
+  destruct (c =? 0).
+  { destruct (zeroed && negb (accum =? 0) && (0 <? count)).
+    - destruct (or_store ul (N.pred count / 2) accum) as [u|] eqn:Eo; [|discriminate].
+      cbn [bind] in E. injection E as <-. eapply or_store_all_some; eauto.
+    - injection E as <-. exact Hul. }
+  destruct (strtoul s cur 16) as [[v e]|]; [|discriminate]. cbn [bind] in E.
+  destruct (count =? 0); [discriminate|].
+  match type of E with context [if ?b then _ else Ok (ul, ?a)] =>
+    destruct b; [destruct (store_opt ul (N.pred count / 2) a) as [u|] eqn:Es; [|discriminate]|] end;
+  cbn [bind] in E.
+  - assert (Hu : all_some u) by (eapply store_opt_all_some; eauto).
+    destruct (rdr s e) as [nc|]; [|discriminate]. cbn [bind] in E.
+    destruct (negb (nc =? COMMA)).
+    + destruct (negb (nc =? 0) || (0 <? N.pred count)); [discriminate|]. injection E as <-. exact Hu.
+    + eapply IH; eauto.
+  - destruct (rdr s e) as [nc|]; [|discriminate]. cbn [bind] in E.
+    destruct (negb (nc =? COMMA)).
+    + destruct (negb (nc =? 0) || (0 <? N.pred count)); [discriminate|]. injection E as <-. exact Hul.
+    + eapply IH; eauto.
+Qed.
+
+Lemma map_default_all_some d1 d2 ul : all_some ul ->
+  map (fun o => match o with Some w => w | None => d1 end) ul =
+  map (fun o => match o with Some w => w | None => d2 end) ul.
+Proof.
+  induction 1 as [|o ul Ho _ IH]; [reflexivity|]. simpl. rewrite IH. destruct o; [reflexivity|congruence].
+Qed.
+
+(* after patches/fix-C04-sscanf-unwritten-words.diff the result does not depend on
+   what the bitmap held before *)
+Lemma parse_hwloc_zeroed_deterministic fixed d1 d2 s :
+  parse_hwloc_gen fixed true d1 s = parse_hwloc_gen fixed true d2 s.
+Proof.
+  unfold parse_hwloc_gen.
+  destruct (count_commas (S (length s)) s (if fixed then 0 else 1) 1) as [count|]; [|reflexivity]. cbn [bind].
+  destruct (has_prefix "0xf...f" s 0) as [pfx|]; [|reflexivity]. cbn [bind].
+  match goal with |- bind ?X _ = _ => destruct X as [[[[cur infinite] cnt]|]|] end; try reflexivity.
+  cbn [bind].
+  match goal with |- bind ?X _ = _ => destruct X as [[ul| |]|] eqn:E end; try reflexivity.
+  cbn [bind]. do 3 f_equal. apply map_default_all_some.
+  eapply hwloc_loop_all_some; [|exact E].
+  unfold all_some. apply Forall_forall. intros o Ho. apply repeat_spec in Ho. subst. discriminate.
 Qed.
 
 (* ---------- list printer: the fuel is always enough ---------- *)
